@@ -30,6 +30,25 @@ def _checks():
     return table
 
 
+def _prune_cache():
+    """Compiled theories are cached per compiler build; thorough runs add tens of GB. When the
+    disk runs low the cache of this work area is dropped (everything in it can be rebuilt)."""
+    import shutil
+    from .util import WORK
+    try:
+        free = shutil.disk_usage(WORK).free
+    except OSError:
+        return
+    cache = os.path.join(WORK, "cache")
+    if free < 25 * 10 ** 9 and os.path.isdir(cache):
+        tmp = cache + ".old.%d" % os.getpid()
+        try:
+            os.rename(cache, tmp)
+        except OSError:
+            return
+        shutil.rmtree(tmp, ignore_errors=True)
+
+
 def main():
     ap = argparse.ArgumentParser(prog="vf")
     sub = ap.add_subparsers(dest="cmd")
@@ -63,6 +82,7 @@ def main():
         except RuntimeError as e:
             print("INCONCLUSIVE property=%s the tree does not build:\n%s" % (a.pid, e))
             return 2
+        _prune_cache()
         try:
             if a.replay:
                 return table[a.pid](a.tier, replay=a.replay)
